@@ -1606,7 +1606,17 @@ class VCGen:
         s.assign(n.target, v, t, st, n.lineno)
         return [st]
 
+    def only_logging(s, body):
+        return all(isinstance(x, ast.Expr) and (isinstance(x.value, ast.Constant) or s.is_dropped_call(x.value))
+                   or (isinstance(x, ast.For) and s.only_logging(x.body) and not x.orelse) for x in body)
+
     def st_If(s, n, st):
+        if any(isinstance(x, ast.Name) and x.id == 'logging' for x in ast.walk(n.test)):
+            # `if logging.getLogger().getEffectiveLevel() == logging.DEBUG:` -- the condition is havocked (DESIGN 2.1)
+            c = fresh('loglevel', BOOL)
+            a = st.clone(); a.pc.append(c)
+            b = st; b.pc.append(Not(c))
+            return s.block(n.body, a) + s.block(n.orelse, b)
         c, tc = s.ev(n.test, st)
         c = s.truthy(c, tc, st)
         out = []
@@ -1972,6 +1982,12 @@ class VCGen:
     def st_For(s, n, st):
         if n.orelse:
             raise Unsupported('for/else')
+        if s.only_logging(n.body):
+            # a loop whose body only logs: no effect on the state; its iterable must still be iterable (a list here)
+            v, t = s.ev(n.iter, st)
+            if t.k not in ('list', 'lref'):
+                raise Unsupported('logging loop over a non-list')
+            return [st]
         if isinstance(n.iter, ast.List):       # literal list: unrolled exactly
             cur = [st]
             for el in n.iter.elts:
@@ -2207,7 +2223,8 @@ class VCGen:
         loops, comps = [], []
 
         def pre(nd):
-            if isinstance(nd, (ast.For, ast.While)) and not (isinstance(nd, ast.For) and isinstance(nd.iter, ast.List)):
+            if isinstance(nd, (ast.For, ast.While)) and not (isinstance(nd, ast.For) and isinstance(nd.iter, ast.List)) \
+                    and not (isinstance(nd, ast.For) and s.only_logging(nd.body)):
                 loops.append(nd)
             if isinstance(nd, ast.ListComp):
                 comps.append(nd)
